@@ -26,7 +26,7 @@ def main():
     reps = verify_parallel(ctx, own)
     for rep in reps:
         c = rep.contract
-        print(f"[{c.ident}] status={rep.status} {rep.reason[:600]} paths={rep.paths} obligations={len(rep.obligations)} outcomes={dict((x, rep.path_outcomes.count(x)) for x in set(rep.path_outcomes))}")
+        print(f"[{c.ident}] status={rep.status} {rep.reason[:600]} paths={rep.paths} obligations={len(rep.obligations)} solver={sum(r.get('seconds_total',0) for r in rep.results):.1f}s outcomes={dict((x, rep.path_outcomes.count(x)) for x in set(rep.path_outcomes))}")
     print(f"verify_parallel {time.time()-t1:.1f}s")
     lem = []
     if hasattr(mod, "lemmas") and not flt:
